@@ -16,3 +16,17 @@ func init() {
 		Real:  []string{"weed/sequence MemorySequencer, SnowflakeSequencer, EtcdSequencer", "weed/server MasterServer.Assign and SendHeartbeat handlers", "weed/topology PickForWrite, NextVolumeId, MaxVolumeIdCommand"}, Stub: []string{"etcd: in-memory KeysAPI with compare-and-swap and injectable errors", "raft: RaftStub group (one leader at a time, command applied on every member)", "volume servers: modelled heartbeat sources"},
 		Assume: []string{"the stub raft group cannot produce two leaders; real raft's own safety is out of scope", "interleaving granularity is one handler call (each sequencer call is mutex-protected)"}}
 }
+
+func init() {
+	props["SMOKE"] = &propCfg{Engine: "cluster", Variants: []string{""}, Quick: 4, Thorough: 4, Chunk: 2, QuickWall: 100, ThorWall: 100, Rule: "smoke", Real: []string{}, Stub: []string{}}
+}
+
+var clusterReal = []string{"weed/server MasterServer (router, gRPC service, Assign, volume growth, vacuum) and VolumeServer (store, HTTP handlers, gRPC service, heartbeat loop)", "weed/topology", "weed/storage", "weed/operation client library", "gRPC 1.29 client and server stacks over in-memory connections", "net/http handlers called in-process through the util.Transport / operation.HttpClient seams"}
+var clusterStub = []string{"TCP: in-memory bufconn listeners and in-process HTTP round trips", "raft: RaftStub", "partitions are per destination, not per pair"}
+
+func init() {
+	props["C14"] = &propCfg{Engine: "cluster", Variants: []string{""}, Quick: 400, Thorough: 30000, Chunk: 20, QuickWall: 110, ThorWall: 1500,
+		Rule:  "each run = real master + 1-3 real volume servers with one replicated volume holding garbage above or below the threshold; the master's own Topology.Vacuum runs while every VacuumVolume{Check,Compact,Commit,Cleanup} RPC parks on the simulated network; per (replica, phase) the plan chooses ok / request dropped / response lost / delayed past the phase time-out, and the order in which parked messages are released; client uploads are attempted during and after the round; oracle: commit only to replicas whose compaction was acknowledged, every key reads identically from every replica afterwards and live blobs are intact, the volume is writable three heartbeats after the round exactly if it was before; two runs in three inject faults; non-trivial = a round ran; distinct = distinct abstract traces",
+		Real:  clusterReal, Stub: clusterStub,
+		Assume: []string{"one volume per layout (growth count 1), so the layout's map iteration order cannot matter", "writability is compared after three heartbeat pulses (bounded liveness), not at the instant the round returns"}}
+}
